@@ -226,7 +226,12 @@ impl PersisterTask {
 
         let mut attempts = 0;
         loop {
-            match file.write_vectored(&slices).await {
+            let written = match file.write_vectored(&slices).await {
+                // tokio::fs::File completes a write in the background; wait until it reached the file.
+                Ok(_) => file.flush().await,
+                Err(e) => Err(e),
+            };
+            match written {
                 Ok(_) => {
                     if fsync {
                         match file.sync_all().await {
